@@ -6,19 +6,20 @@ import Verif.Lemmas.OrderChanges
 namespace Verif.MptStore
 open Verif.Mpt Collector
 
-/-- `TrieRun H U v t es t'`: the events `es` of one trie at version `v` from tree `t` to `t'`, all references inside `U`:
-    own rounds, and merges of children that are opened on the current tree with a fresh collector `c0`, run themselves
+/-- `TrieRun H U Vok t es t'`: the events `es` of one trie from tree `t` to `t'`, all references inside `U`: own rounds —
+    each at its own version `v` with `Vok v` (a trie's version may change between its rounds: `SetVersion`; children and
+    parents may run at different versions: `mergeChanges` keeps the child's origins since fix 280766e) — and merges of children that are opened on the current tree with a fresh collector `c0`, run themselves
     (`esC`, possibly with nested children) and are replayed in the order `orderChanges` computes (which is not stuck) -/
-inductive TrieRun (H : Bytes → Bytes) (U : Ref → Prop) (v : Nat) : Node → List Event → Node → Prop where
-  | nil (t : Node) : TrieRun H U v t [] t
-  | own (t t1 t' : Node) (es1 es : List Event) : RoundEvents v t es1 t1 → (∀ r ∈ eventRefs es1, U r) →
-      TrieRun H U v t1 es t' → TrieRun H U v t (es1 ++ es) t'
-  | merge (t t2 t' : Node) (c0 : Trie) (esC es : List Event) :
-      c0.cc.changes = [] ∧ c0.cc.deletes = [] → TrieRun H U v t esC t2 →
-      orderStuck H (c0.applyEvents H esC).cc.getChanges = false →
-      TrieRun H U v t2 es t' →
-      TrieRun H U v t (mergeEvents (orderChanges H (c0.applyEvents H esC).cc.getChanges)
-        (c0.applyEvents H esC).cc.getDeletes ++ es) t'
+inductive TrieRun (H : Bytes → Bytes) (U : Ref → Prop) (Vok : Nat → Prop) : Node → List Event → Node → Prop where
+  | nil (t : Node) : TrieRun H U Vok t [] t
+  | own (v : Nat) (t t1 t' : Node) (es1 es : List Event) : Vok v → RoundEvents v t es1 t1 → (∀ r ∈ eventRefs es1, U r) →
+      TrieRun H U Vok t1 es t' → TrieRun H U Vok t (es1 ++ es) t'
+  | merge (t t2 t' : Node) (c0 : Trie) (esC es : List Event) (cs : List (Change Ref)) :
+      c0.cc.changes = [] ∧ c0.cc.deletes = [] → TrieRun H U Vok t esC t2 →
+      cs.Perm (c0.applyEvents H esC).cc.getChanges →   -- Go hands mergeChanges the changes in map order
+      orderStuck H cs = false →
+      TrieRun H U Vok t2 es t' →
+      TrieRun H U Vok t (mergeEvents (orderChanges H cs) (c0.applyEvents H esC).cc.getDeletes ++ es) t'
 
 theorem liveRun_sub_nodes {κ N : Type} (k : N → κ) (P : N → Prop) (cs : List (Call N)) :
     ∀ (L : κ → Prop), (∀ c ∈ cs, CallNodes P c) → ∀ x, liveRun k L cs x → L x ∨ ∃ n, P n ∧ k n = x := by
@@ -41,15 +42,15 @@ theorem callNodes_mono {N : Type} {P Q : N → Prop} (h : ∀ n, P n → Q n) (c
   | del o => exact h _ hc
   | add o n => exact ⟨h _ hc.1, fun o' ho' => h _ (hc.2 o' ho')⟩
 
-theorem trieRun_discipline (H : Bytes → Bytes) (U : Ref → Prop) (hU : KeyInjOn H U) {v : Nat} {t t' : Node} {es : List Event}
-    (h : TrieRun H U v t es t') :
+theorem trieRun_discipline (H : Bytes → Bytes) (U : Ref → Prop) (hU : KeyInjOn H U) {Vok : Nat → Prop} {t t' : Node} {es : List Event}
+    (h : TrieRun H U Vok t es t') :
     WF t → (∀ r ∈ refs t [], U r) → ∀ LK : Bytes → Prop, (∀ r ∈ refs t [], LK (r.key H)) →
       (∀ x, LK x → ∃ r, U r ∧ r.key H = x) →
       Disc (Ref.key H) LK (callsOf H es) ∧ (∀ r ∈ refs t' [], liveRun (Ref.key H) LK (callsOf H es) (r.key H)) ∧
       WF t' ∧ (∀ r ∈ eventRefs es, U r) ∧ (∀ r ∈ refs t' [], U r) := by
   induction h with
   | nil t => intro hw hUt LK hcov _; exact ⟨trivial, hcov, hw, (fun r hr => by cases hr), hUt⟩
-  | own t t1 t' es1 es hr hE _ ih =>
+  | own v t t1 t' es1 es _ hr hE _ ih =>
     intro hw hUt LK hcov hLKU
     -- the own round, at reference level with the live references of `U` whose key is live
     have hLR : ∀ r ∈ refs t [], (fun r => U r ∧ LK (r.key H)) r := fun r hr' => ⟨hUt r hr', hcov r hr'⟩
@@ -82,7 +83,7 @@ theorem trieRun_discipline (H : Bytes → Bytes) (U : Ref → Prop) (hU : KeyInj
       rcases (eventRefs_append _ _ r).mp hr' with h1 | h1
       · exact hE r h1
       · exact hE2 r h1
-  | merge t t2 t' c0 esC es hfreshC _ hstuck _ ihC ih =>
+  | merge t t2 t' c0 esC es cs hfreshC _ hpermcs hstuck _ ihC ih =>
     intro hw hUt LK hcov hLKU
     -- the child's own run, started from the keys of the tree it was opened on
     obtain ⟨hdC, hcC, hw2, hEC, hUt2⟩ := ihC hw hUt (fun x => x ∈ (refs t []).map (Ref.key H))
@@ -92,10 +93,10 @@ theorem trieRun_discipline (H : Bytes → Bytes) (U : Ref → Prop) (hU : KeyInj
     have provT : Prov (Ref.key H) (fun _ => True) (c0.applyEvents H esC).cc :=
       ⟨fun e he => ⟨(prov.changes e he).1, trivial, fun _ _ => trivial⟩, fun e he => ⟨(prov.deletes e he).1, trivial⟩⟩
     have hgood := orderChanges_good H _ hstuck
-    have hperm := orderChanges_perm H (c0.applyEvents H esC).cc.getChanges
+    have hperm := (orderChanges_perm H cs).trans hpermcs
     have hmerge := merge_calls_ok (Ref.key H) _ _ _ inv inv2 provT _ hperm hgood LK
       (by intro x hx; obtain ⟨r, hr', rfl⟩ := List.mem_map.mp hx; exact hcov r hr')
-    have hne : ∀ c ∈ orderChanges H (c0.applyEvents H esC).cc.getChanges, ∀ o, c.old = some o → o.key H ≠ c.new.key H := by
+    have hne : ∀ c ∈ orderChanges H cs, ∀ o, c.old = some o → o.key H ≠ c.new.key H := by
       intro c hc o ho
       have hc' : c ∈ (c0.applyEvents H esC).cc.getChanges := hperm.mem_iff.mp hc
       obtain ⟨e, he, rfl⟩ := List.mem_map.mp hc'
@@ -105,7 +106,7 @@ theorem trieRun_discipline (H : Bytes → Bytes) (U : Ref → Prop) (hU : KeyInj
       exact inv2.old_ne _ _ o hg ho
     have hcalls := callsOf_mergeEvents H _ (c0.applyEvents H esC).cc.getDeletes hne
     -- the nodes the replay hands to the parent's collector come from the child's events
-    have hnodes : ∀ c ∈ mergeCalls (orderChanges H (c0.applyEvents H esC).cc.getChanges) (c0.applyEvents H esC).cc.getDeletes,
+    have hnodes : ∀ c ∈ mergeCalls (orderChanges H cs) (c0.applyEvents H esC).cc.getDeletes,
         CallNodes U c := by
       intro c hc
       simp only [mergeCalls, List.mem_append, List.mem_map] at hc
@@ -117,7 +118,7 @@ theorem trieRun_discipline (H : Bytes → Bytes) (U : Ref → Prop) (hU : KeyInj
       · simp only [getDeletes] at hd'
         obtain ⟨e, he, rfl⟩ := List.mem_map.mp hd'
         exact hEC _ (prov.deletes e he).2
-    have hEM : ∀ r ∈ eventRefs (mergeEvents (orderChanges H (c0.applyEvents H esC).cc.getChanges)
+    have hEM : ∀ r ∈ eventRefs (mergeEvents (orderChanges H cs)
         (c0.applyEvents H esC).cc.getDeletes), U r := by
       intro r hr'
       simp only [mergeEvents] at hr'
@@ -162,7 +163,7 @@ theorem trieRun_discipline (H : Bytes → Bytes) (U : Ref → Prop) (hU : KeyInj
         exact hEC _ (prov.deletes e he).2
     -- continue with the rest of the run
     obtain ⟨hd2, hc2, hw', hE2, hUt'⟩ := ih hw2 hUt2
-      (liveRun (Ref.key H) LK (mergeCalls (orderChanges H (c0.applyEvents H esC).cc.getChanges) (c0.applyEvents H esC).cc.getDeletes))
+      (liveRun (Ref.key H) LK (mergeCalls (orderChanges H cs) (c0.applyEvents H esC).cc.getDeletes))
       (fun r hr' => hmerge.2 _ (hcC r hr'))
       (by
         intro x hx
